@@ -21,18 +21,20 @@ import (
 )
 
 type c20State struct {
-	r       *Run
-	t       *testing.T
-	mode    string
-	ante    *c20Ante
-	priv    *c20Priv
-	trace   []string // op lines of the current trace (for replays)
-	hdr     []string // reset + header lines of the current trace
-	seq     []string // op-kind/outcome sequence of the trace (class key)
-	nontr   bool
-	share   *Fix              // fixture shared by all ante traces (the ante ops are stateless)
-	pstats  map[string]int    // per-kind counters over all priv traces
-	ctrlErr map[string]string // last dry-run error per kind
+	r           *Run
+	t           *testing.T
+	mode        string
+	ante        *c20Ante
+	priv        *c20Priv
+	trace       []string // op lines of the current trace (for replays)
+	hdr         []string // reset + header lines of the current trace
+	seq         []string // op-kind/outcome sequence of the trace (class key)
+	nontr       bool
+	share       *Fix // fixture shared by all ante traces (the ante ops are stateless)
+	signersDone bool
+	extAllDone  bool
+	pstats      map[string]int    // per-kind counters over all priv traces
+	ctrlErr     map[string]string // last dry-run error per kind
 }
 
 func c20Hash(s string) string {
@@ -85,7 +87,7 @@ func (s *c20State) exec(line string) string {
 			return "bad-op"
 		}
 		return s.execWrappers(line)
-	case "own", "fix", "priv", "ext":
+	case "own", "fix", "priv", "ext", "signer":
 		if s.priv == nil {
 			return "bad-op"
 		}
@@ -480,6 +482,7 @@ func TestC20(t *testing.T) {
 	// ---- part 2: authority / owner guards
 	nTraces := r.N(24, 300)
 	for i := 0; i < nTraces; i++ {
+		c20dbg("priv trace %d ops=%d", i, r.nOps)
 		run("reset priv")
 		s.priv.generate(run, r.N(260, 400))
 	}
